@@ -211,16 +211,60 @@ Definition check_2010 (fs : list field) : verdict :=
       match parse_gval (S (length rest)) rest with
       | Some (g, [FZ nleft]) =>
         match m with
-        | Some (gm, r) => vand (expect 1 (gval_eqv gm g && gval_eqv g gm) [])
-                               (expect 2 (plen r =? nleft) [FZ (plen r)])
+        | Some (gm, r) =>
+          vand (expect 1 (gval_eqv gm g && gval_eqv g gm) [])
+         (vand (expect 2 (plen r =? nleft) [FZ (plen r)])
+               (* implementation = model. Where the proved reference decoder reads the input as a message m but the reader
+                  answers another value (a packed field arriving unpacked, a split run, a bool varint > 1: the refuted
+                  witnesses of proofs/ProtoAnyMoreProofs.v), the case is counted as drift 8: the property speaks about what
+                  the writer / the reference ENCODERS emit, which is canonical *)
+               (match decode_top SC root input with
+                | Some mm => let e := gtop SC byname true root mm in
+                             if haslen || (gval_eqv gm e && gval_eqv e gm) then VOk else VDrift 8
+                | None => VOk
+                end))
         | None => VBad 5 []
         end
       | _ => VBad 99 []
       end
     else
       match m with
-      | None => VOk
+      | None => match decode_top SC root input with Some _ => if haslen then VOk else VDrift 8 | None => VOk end
       | Some (_, r) => VBad 6 [FZ (plen r)]
       end
+  | _ => VBad 99 []
+  end.
+
+(* 2013. WriteAnyWithDesc / ReadAnyWithDesc on the TypeDescriptor of a repeated or map FIELD (a LIST / MAP descriptor at the
+   top; theorems write_any_top / read_any_top). fields: schema.., byname, needMessageLen, hasMessageLen, disallowUnknown,
+   field number (in the root message), value.., write code, buffer, read code of ReadAnyWithDesc(buffer), [value read..], bytes left *)
+Definition check_2013 (fs : list field) : verdict :=
+  match parse_schema fs with
+  | None => VBad 98 []
+  | Some (root, SC, FZ bn :: FZ nl :: FZ hl :: FZ dis :: FZ fnum :: rest) =>
+    match parse_gval (S (length rest)) rest with
+    | Some (g, FZ wc :: FB buf :: FZ rc :: rest2) =>
+      let byname := negb (bn =? 0) in
+      match (match find_msg SC root with Some md => find_field md fnum | None => None end) with
+      | None => VBad 96 []
+      | Some fd =>
+        if (wc =? 3) || (rc =? 3) || (rc =? 4) then VBad 3 [] else
+        let rd := read_any_desc SC false byname c20d_fuel (fd_label fd) (fd_type fd) (negb (hl =? 0)) buf in
+        let g' := match rd with Some (gr, _) => reorder c20d_fuel g gr | None => g end in
+        if negb (gval_eqv g g' && gval_eqv g' g) then VBad 97 [] else
+        let r := write_any_desc SC false (negb (dis =? 0)) byname c20d_junk true c20d_fuel (fd_num fd) (fd_label fd) (fd_type fd)
+                                (negb (nl =? 0)) g' in
+        vand (expect 1 ((snd r =? wc) && bytes_eqb (fst r) buf) [FZ (snd r); FB (fst r)])
+             (if rc =? 0 then
+                match parse_gval (S (length rest2)) rest2, rd with
+                | Some (gi, [FZ nleft]), Some (gm, rr) =>
+                  vand (expect 2 (gval_eqv gm gi && gval_eqv gi gm) []) (expect 4 (plen rr =? nleft) [FZ (plen rr)])
+                | Some _, None => VBad 5 []
+                | _, _ => VBad 99 []
+                end
+              else match rd with None => VOk | Some _ => VBad 6 [] end)
+      end
+    | _ => VBad 99 []
+    end
   | _ => VBad 99 []
   end.
